@@ -757,7 +757,18 @@ class Unit:
             fn = src.find_fn(d.get("impl", "-"), d["name"])
         raw_hash = hashlib.sha256((fn["sig"] + fn["body"]).encode()).hexdigest()
         log = []
-        if d["closure"]:
+        if (self.stub_depth > 0 or d.get("stub")) and not d["closure"]:
+            # T7 stub: only the signature matters; body rules (rewrites, loop specs, injections) are not applied, so a change inside
+            # the body of a function that is merely *called* from this unit cannot make this unit undecided
+            sig = drop_auto_traits(fn["sig"], log)
+            for sub in d["subs"]:
+                sig = re.compile(sub["regex"], re.S).sub(sub["repl"], sig)
+            if d.get("sig"):
+                sig = "\n".join(d["sig"])
+            elif d.get("ret"):
+                sig = named_return(sig, d["ret"])
+            body = "{ unimplemented!() }"
+        elif d["closure"]:
             fn_for_rules = dict(fn)
             fn_for_rules["sig"] = ""   # no parameter-survival check for synthetic signatures
             sig, body = apply_fn_rules(fn_for_rules, d, log)
